@@ -15,7 +15,7 @@ def run(ctx):
     L = relift(ctx)
     known = dict(C.load_known('C10'))
     hs = os.path.join(H, 'h_cast.c')
-    NM = 6 if thorough else 4
+    NM = 5 if thorough else 4
     # loops over the 8 selector slots (harness main, wrapper fill) need 9; the loops of the code under test are bounded by the
     # flattened lengths
     US = ['main.%d:9' % k for k in range(4)] + ['%s.%d:9' % (f, k) for f in ('d_cast', 'd_cast_empty', 'd_cyclic', 'fill', 'zero') for k in range(8)]
